@@ -10,10 +10,10 @@ VALIDATION_CASES = {'quick': 60, 'thorough': 200}
 TIME_BUDGET = {'quick': 900, 'thorough': 3300}
 OPTS = {'quick': {'hash_order': 'insertion', 'step_budget': 3000000}, 'thorough': {'hash_order': 'insertion', 'step_budget': 6000000}}
 BOUNDS = {
-    'quick': 'corpora of 1-2 files with 0-3 lines in total (blank lines included), 0-2 words per line, words of 1-2 symbolic letters over {a, b} (character modes: {a, b, #}); '
+    'quick': 'corpora of 1-2 files with 0-3 lines in total (blank lines included), 0-2 words per line, words of 1-2 symbolic letters over {a, b} (character modes with at most 3 words: {a, b, #}); '
              'max_size in {None, 0, 1, 2, 5}, max_sequences in {None, 1, 2}, word mode and character mode (1-grams, 3-grams), '
              'num_threads in {0, 2} (worker threads sequentialised, the order in which their results reach the reducer is '
-             'arbitrary for corpora of <= 2 lines); save -> load; get_closest for a symbolic query of 1-2 letters',
+             'arbitrary for corpora of <= 2 lines); save -> load; get_closest for a symbolic query of 1-3 letters under both distance measures',
     'thorough': 'up to 4 lines, 3 words per line',
 }
 OUTSIDE = ['real files / text encodings', 'alphabets other than ASCII letters (the word-part regex and NFKC normalisation are '
@@ -45,8 +45,17 @@ def shapes(tier):
                 for mode in ('word', 'char1', 'char3'):
                     if mode != 'word' and (ms in (0, 5) or mq == 2):
                         continue
-                    out.append({'layout': lay, 'max_size': ms, 'max_seq': mq, 'mode': mode, 'threads': 2 if len(lay) > 1 else 0,
-                                'split_files': len(lay) == 2})
+                    base = {'layout': lay, 'max_size': ms, 'max_seq': mq, 'mode': mode, 'threads': 2 if len(lay) > 1 else 0,
+                            'split_files': len(lay) == 2}
+                    if mode == 'word' and ms is None and mq is None and lay:
+                        # get_closest: one shape per (query length, distance measure)
+                        for ql in (1, 2, 3):
+                            for nm in (0, 1):
+                                if ql == 3 and sum(l[0] for l in lay) > 3 and tier == 'quick':
+                                    continue
+                                out.append(dict(base, closest=[ql, nm]))
+                    else:
+                        out.append(base)
     out.sort(key=lambda s: -sum(sum(l) for l in s['layout']))
     return out
 
@@ -114,7 +123,7 @@ def run(ctx, shape, opts):
         ws = []
         for wi, nl in enumerate([1 + ((li + wi) % 2) for wi in range(line[0])]):
             # character modes also count punctuation: '#' is in the alphabet there (it starts a line of the saved file)
-            ws.append(word_value(ctx, 'w%d_%d' % (li, wi), nl, (0x61, 0x62) if shape['mode'] == 'word' else (0x61, 0x62, 0x23)))
+            ws.append(word_value(ctx, 'w%d_%d' % (li, wi), nl, (0x61, 0x62, 0x23) if (shape['mode'] != 'word' and sum(l[0] for l in lay) <= 3) else (0x61, 0x62)))
         lines_words.append(ws)
 
     def line_string(ws):
@@ -193,13 +202,23 @@ def run(ctx, shape, opts):
     ctx.require(same and m.eq(d2.get('freq_sum'), d.get('freq_sum')) is True, 'save followed by load reproduces the dictionary')
     # ---- get_closest
     if mode == 'word' and entries and (ctx.concrete is not None and 'query' in ctx.concrete or
-                                       ctx.concrete is None and shape['max_size'] in (None, 5) and shape['max_seq'] is None):
-        q = word_value(ctx, 'query', 1 + ctx.in_choice('qlen', 2))
+                                       ctx.concrete is None and shape.get('closest')):
+        if ctx.concrete is None:
+            ql, nm = shape['closest']
+            ctx.inputs['qlen'], ctx.inputs['normalized'] = ql - 1, nm
+        else:
+            ql, nm = ctx.concrete['qlen'] + 1, ctx.concrete.get('normalized', 0)
+        q = word_value(ctx, 'query', ql)
         qs = StringObj(StrBuf(q, [1] * len(q)))
-        gc = m.call('Dictionary::get_closest', ref_to(d), qs.as_str(), Enum('DictionaryDistanceMeasure', 'EditDistance', 0, []))
+        norm = bool(nm)
+        meas = m.enum_variants_of('DictionaryDistanceMeasure')
+        mname = 'NormalizedEditDistance' if norm else 'EditDistance'
+        gc = m.call('Dictionary::get_closest', ref_to(d), qs.as_str(), Enum('DictionaryDistanceMeasure', mname, meas.index(mname), []))
         ctx.require(gc.variant == 'Some', 'get_closest returns an entry of a non-empty dictionary')
         term, freq = gc.fields[0].fields[0], gc.fields[0].fields[1]
-        dists = [(lev(ctx, q, gq[0]), gq[1], gq) for gq in kept]
+        from fractions import Fraction
+        # normalised measure: distance divided by the longer length (exact rational comparison)
+        dists = [((Fraction(lev(ctx, q, gq[0]), max(len(q), len(gq[0]), 1)) if norm else lev(ctx, q, gq[0])), gq[1], gq) for gq in kept]
         best = min(x[0] for x in dists)
         cands = [x for x in dists if x[0] == best]
         topf = max(x[1] for x in cands)
@@ -229,7 +248,7 @@ def _native(native, shape, inputs):
     lines = _lines_py(shape, inputs)
     files = [lines[:1], lines[1:]] if shape['split_files'] else [lines]
     q = ''.join(chr(c) for c in inputs.get('query', [])) if 'query' in inputs else None
-    return native_ok(native.call('dictionary', files=files, max_size=shape['max_size'], max_seq=shape['max_seq'], threads=shape['threads'],
+    return native_ok(native.call('dictionary', normalized=bool(inputs.get('normalized', 0)), files=files, max_size=shape['max_size'], max_seq=shape['max_seq'], threads=shape['threads'],
                                  chars=shape['mode'] != 'word', grams=3 if shape['mode'] == 'char3' else 1, query=q, _timeout=20.0))
 
 
@@ -289,6 +308,10 @@ def concrete_check(native, inputs, shape):
                     nd.append(min(d[j] + 1, nd[j - 1] + 1, d[j - 1] + (a[i - 1] != b[j - 1])))
                 d = nd
             return d[-1]
+        from fractions import Fraction
+        if inputs.get('normalized', 0):
+            lev0 = levp
+            levp = lambda a, b: Fraction(lev0(a, b), max(len(a), len(b), 1))
         best = min(levp(q, w) for w in items)
         topf = max(items[w] for w in items if levp(q, w) == best)
         term, freq = v['closest'][0], v['closest'][1]
@@ -306,6 +329,7 @@ def _case(lines, ms, mq, mode='word', query=None):
     if query is not None:
         inp['query'] = [ord(c) for c in query]
         inp['qlen'] = len(query) - 1
+        inp['normalized'] = len(query) % 2
     return ({'layout': lay, 'max_size': ms, 'max_seq': mq, 'mode': mode, 'threads': 2 if len(lay) > 1 else 0, 'split_files': len(lay) == 2}, inp)
 
 
